@@ -95,3 +95,57 @@ def check_locks(prop, which):
     write_evidence(prop, "model_checking", cov, time.time() - t0, len(viol),
                    ["secp256k1/Schnorr primitives of btcec are trusted for building witnesses", "lock times are one hour in the past / ten hours in the future"])
     return 1 if viol else 0
+
+
+def check_tokens(prop="C14"):
+    t0 = time.time()
+    build_harness()
+    d = rundir("%s_%s" % (prop, tier()))
+    sd = spec_copy(d)
+    cases = os.path.join(d, "cases.ndjson")
+    results = os.path.join(d, "results.ndjson")
+    val = os.path.join(d, "validate.json")
+    out, dt1 = tlc_assume(sd, "TokenDump.tla", {"VERIF_TIER": tier(), "VERIF_OUT": cases})
+    m = re.search(r'<<"CASES", (\d+)>>', out)
+    ncases = int(m.group(1)) if m else 0
+    rc, txt = run([os.path.join(BIN, "vharness"), "tokens", "-in", cases, "-out", results, "-seed", str(seed())], env=goenv(), timeout=3000)
+    if rc != 0:
+        raise Infra("tokens driver failed (rc=%d):\n%s" % (rc, txt[-3000:]))
+    out, dt2 = tlc_assume(sd, "TokenValidate.tla", {"VERIF_TIER": tier(), "VERIF_TRACE": results, "VERIF_TAGS": val})
+    v = json.loads(open(val).readline())
+    if v["n"] != ncases:
+        raise Infra("TLC validated %d of %d cases" % (v["n"], ncases))
+    res = [json.loads(l) for l in open(results)]
+    groups = {}
+    for i in v["bad"]:
+        r = res[i - 1]
+        c = r["c"]
+        if c["kind"] == "decode":
+            key = "decode|%s|%s" % (c["cls"], r["actual"])
+        else:
+            key = "roundtrip|%s|incl=%s|dleq=%s|form=%s|expect=%s|actual=%s" % (c["ver"], c["incl"], c["dleq"], c["form"], r["expect"], r["actual"])
+        groups.setdefault(key, []).append(r)
+    unknown, known = split_known(prop, sorted(groups))
+    for k in known:
+        print("KNOWN-FINDING: property=%s %s (%s)" % (prop, k["key"], k.get("what", "")))
+    viol = []
+    for key in unknown:
+        r = groups[key][0]
+        path = save_replay(prop, re.sub(r"[^A-Za-z0-9]+", "_", key)[:80], {"property": prop, "kind": "tokens", "key": key, "case": r, "count": len(groups[key])})
+        print("VIOLATION property=%s replay=%s" % (prop, path))
+        print("  finding: %s (%d cases): %s" % (key, len(groups[key]), r["detail"][:160]))
+        viol.append(key)
+    ninputs = 0
+    for r in res:
+        m2 = re.search(r"(\d+) inputs", r.get("detail", ""))
+        ninputs += int(m2.group(1)) if (m2 and r["c"]["kind"] == "decode") else 1
+    cov = {"evaluations": ninputs, "distinct_nontrivial": v["regions"]["roundtrip"] + v["regions"]["fail"] + v["regions"]["total"],
+           "rule": "cases are Token!Selected enumerated by TLC: round-trip shapes (law: roundtrip / fail / dontcare) and decoder input "
+                   "classes (each class is concretised into many strings: every truncation and 5 byte values at every position of a valid "
+                   "V3 and V4 token, 200 strings per length 0..8, 3000 random base64 bodies per format, hand-built JSON/CBOR). "
+                   "evaluations counts concrete strings / round trips; distinct_nontrivial counts cases whose law demands something",
+           "samples": [res[0], res[len(res) // 2], res[-1]], "regions": v["regions"], "cases": ncases, "mismatching_cases": len(v["bad"]),
+           "exhaustive": False, "known_findings_seen": [k["key"] for k in known]}
+    write_evidence(prop, "exploration", cov, time.time() - t0, len(viol),
+                   ["the string space is covered by classes, not by all strings", "fxamacker/cbor and encoding/json are trusted as libraries"])
+    return 1 if viol else 0
